@@ -191,14 +191,23 @@ def run(run):
                 "(0-3 attributes, three quoting styles) on table, rows and cells, 12 cell contents; (b) every paired tag of the "
                 "allowed-tag table (minus extension/structural tags) with attribute maps and inline content; (c) links, external "
                 "links and template calls with 0-5 arguments; (d) attribute strings (well-formed and malformed) through "
-                "parse_attrs vs the Coq scanner model; non-trivial: (a) >= 2 cells, (b)-(d) at least one attribute/argument; "
-                "distinct by JSON hash")
+                "parse_attrs vs the Coq scanner model; (e) written tables of the grammar of c03_tables_parse_to_written_grid (rows, "
+                "cells per line or ||/!! separated, caption, attributes everywhere, tables nested two deep) and soups of 1-16 table "
+                "tokens, the real table skeleton vs Model.Tables.parse; (f) template calls, argument references and links with 1-6 "
+                "plain arguments (empty ones included) vs Model.VbarSplit; non-trivial: (a) >= 2 cells, (b)-(d) at least one "
+                "attribute/argument, (e) >= 4 tokens, (f) >= 2 bars; distinct by JSON hash")
     run.trusted = [
         "Coq 8.16.1 kernel; vm_compute evaluates Model.Attrs.parse_attrs on the attribute strings",
         "axioms: none",
         "model coq/Model/Attrs.v tied to parser.py:parse_attrs by direct calls on generated strings",
-        "table/HTML/link/template structure is decided by execution against the structure the generator wrote (oracle), the "
-        "table handlers and the encoder are not modelled",
+        "model coq/Model/Tables.v (the table handlers as a machine over the parser stack, text abstracted to atoms) tied to "
+        "parser.py by comparing, inside Coq, what the machine builds with the table skeleton of the real parse tree on written "
+        "tables and on arbitrary soups of table tokens; check_for_attributes' second branch is outside the machine (counted)",
+        "model coq/Model/VbarSplit.v tied to core.py:_encode/vbar_split through the argument lists of real template calls, "
+        "argument references and links",
+        "source pins (Gen/GenPins.v) for parse_attrs and the eleven table handler functions",
+        "HTML element / cell-content / link structure beyond these models is decided by execution against the structure the "
+        "generator wrote (oracle); the tokenizer, tag_fn and the encoder are exercised, not modelled",
     ]
     run.prove()
     rng = run.rng
